@@ -502,3 +502,316 @@ Proof.
     + destruct Hside as [H|H]; [left; exact H|right; apply H; exact Hx].
   - rewrite app_length. simpl in Hfu |- *. lia.
 Qed.
+
+(* ------------------------------------------------------------------ *)
+(* M1 = S for the hostname pass (direct matches: route and parameter values) *)
+(* ------------------------------------------------------------------ *)
+Definition spec_direct_host (pats : list bytes) (host path : bytes) : option (bytes * list kv) :=
+  match select_in pats host path true with
+  | Some (p, vals) => Some (p, name_values p vals)
+  | None => None
+  end.
+
+Lemma m2h_root_sound host path root l vals :
+  nohslash host -> hroot_ok root -> m2h_root path root host = Some (l, vals) ->
+  exists rt ht bt hvals x kvp,
+    nroute l = Some rt /\ In rt (flat_map routes_s (nchildren root)) /\
+    rpat rt = render ht ++ render bt /\
+    forallb htok_ok ht = true /\ forallb tok_ok bt = true /\ (exists q, render bt = "/" :: q) /\
+    SpecSound.Matches ht host (List.length host) hvals /\
+    List.length hvals = List.length (wildcard_names ht) /\
+    starts_with "/" (nkey x) = true /\ pwf (render ht) x /\ m2 x path = Some (l, kvp) /\
+    map fst kvp = wildcard_names bt /\
+    vals = combine (wildcard_names ht) hvals ++ kvp.
+Proof.
+  intros Hns (Hnd & Hpw & Hsplit) Em. rewrite Forall_forall in Hpw.
+  unfold m2h_root in Em. destruct host as [|h0 hrest]; [discriminate|]. set (host := h0 :: hrest) in *.
+  assert (Hh0 : h0 <> "/") by (apply Hns; left; reflexivity).
+  assert (exists x0, In x0 (nchildren root) /\ starts_with "/" (nkey x0) = false /\ m2h path x0 host = Some (l, vals))
+    as (x0 & Hx0 & Hx0s & Hmx).
+  { unfold alt in Em. destruct (m2h_child path h0 (nchildren root) host) as [[l1 v1]|] eqn:E1.
+    - inversion Em; subst. apply m2h_child_some in E1. destruct E1 as (x0 & Hx & Hs & Hmx).
+      exists x0. splits; auto. apply starts_with_hd in Hs.
+      destruct (starts_with "/" (nkey x0)) eqn:E3; auto. apply starts_with_hd in E3. congruence.
+    - apply m2h_child_some in Em. destruct Em as (x0 & Hx & Hs & Hmx).
+      exists x0. splits; auto. apply starts_with_hd in Hs.
+      destruct (starts_with "/" (nkey x0)) eqn:E3; auto. apply starts_with_hd in E3. congruence. }
+  assert (Hxb : hostb x0 = true) by (destruct (Hsplit x0 Hx0) as [H|H]; [congruence|exact H]).
+  destruct (m2h_sound path x0 [] host l vals (Hpw x0 Hx0) Hxb Hns Hmx)
+    as (ht & hvals & x' & kvp & H1 & H2 & H3 & H4 & H5 & H6 & H7 & H8).
+  simpl app in H5.
+  destruct (m2_sound x' (render ht) path l kvp H5 H7) as (rt & bt & G1 & G2 & G3 & G4 & G5).
+  destruct (pwf_routes_prefix x' (render ht) rt H5 G2) as [q Hq].
+  exists rt, ht, bt, hvals, x', kvp. splits; auto.
+  - apply in_flat_map. exists x0. split; [exact Hx0|]. apply H6. exact G2.
+  - rewrite G3 in Hq. apply app_inv_head in Hq.
+    destruct (nkey x') as [|d kk]; [discriminate|]. simpl in H4. apply Ascii.eqb_eq in H4. subst d.
+    exists (kk ++ q). exact Hq.
+Qed.
+
+Lemma map_fst_combine {A B} : forall (a : list A) (b : list B), List.length b = List.length a -> map fst (combine a b) = a.
+Proof. induction a as [|x a IH]; intros [|y b] H; simpl in *; try discriminate; auto. f_equal. apply IH. lia. Qed.
+Lemma map_snd_combine {A B} : forall (a : list A) (b : list B), List.length b = List.length a -> map snd (combine a b) = b.
+Proof. induction a as [|x a IH]; intros [|y b] H; simpl in *; try discriminate; auto. f_equal. apply IH. lia. Qed.
+Lemma combine_app_eq {A B} : forall (a a' : list A) (b b' : list B), List.length b = List.length a ->
+  combine (a ++ a') (b ++ b') = combine a b ++ combine a' b'.
+Proof. induction a as [|x a IH]; intros a' [|y b] b' H; simpl in *; try discriminate; auto. f_equal. apply IH. lia. Qed.
+
+Lemma forallb_htok_tok kt : forallb htok_ok kt = true -> forallb tok_ok kt = true.
+Proof. intros H. apply forallb_ptok_tok. apply forallb_htok_ptok. exact H. Qed.
+
+Lemma host_names rt ht bt hvals kvp :
+  rpat rt = render ht ++ render bt -> forallb htok_ok ht = true -> forallb tok_ok bt = true ->
+  List.length hvals = List.length (wildcard_names ht) -> map fst kvp = wildcard_names bt ->
+  name_values (rpat rt) (map snd (combine (wildcard_names ht) hvals ++ kvp)) = combine (wildcard_names ht) hvals ++ kvp.
+Proof.
+  intros Hp Hh Hb Hl Hn. unfold name_values. rewrite Hp, <- render_app, tokenize_render
+    by (rewrite forallb_app, (forallb_htok_tok _ Hh), Hb; reflexivity).
+  rewrite wildcard_names_app, map_app, (map_snd_combine _ _ Hl), (combine_app_eq _ _ _ _ Hl).
+  f_equal. rewrite <- Hn. apply combine_fst_snd.
+Qed.
+
+Theorem lbd_eq_spec root host path fuel :
+  hroot_ok root -> nroute root = None -> host <> [] -> nohslash host -> pathok path = true ->
+  root_side path root -> hroot_fuel path root <= fuel ->
+  direct_obs (lookup_by_domain fuel root host path false [] []) =
+  spec_direct_host (map rpat (routes_of_node root)) host path.
+Proof.
+  intros Hroot Hr Hne Hns Hpo Hside Hf. unfold spec_direct_host.
+  rewrite (spec_eq_m2h root host path Hroot Hr Hne Hns Hpo Hside).
+  pose proof (lbd_eq_m2h host path root false fuel Hns Hroot Hne Hf) as H.
+  destruct (m2h_root path root host) as [[l vals]|] eqn:Em.
+  - destruct H as (l' & tps' & -> & Hrt).
+    destruct (m2h_root_sound host path root l vals Hns Hroot Em)
+      as (rt & ht & bt & hvals & x & kvp & G1 & G2 & G3 & G4 & G5 & G6 & G7 & G8 & G9 & G10 & G11 & G12 & G13).
+    simpl. unfold lpat. rewrite Hrt, G1. f_equal. f_equal. subst vals. symmetry. apply (host_names rt ht bt hvals kvp); auto.
+  - destruct H as (a & b & c & d & -> & Hi). simpl.
+    destruct a as [n|]; auto. destruct b; auto. specialize (Hi eq_refl). discriminate.
+Qed.
+
+(* with lazy parameter capture the same route is selected *)
+Theorem lbd_eq_spec_lazy root host path fuel lazy :
+  hroot_ok root -> nroute root = None -> host <> [] -> nohslash host -> pathok path = true ->
+  root_side path root -> hroot_fuel path root <= fuel ->
+  option_map fst (direct_obs (lookup_by_domain fuel root host path lazy [] [])) =
+  option_map fst (spec_direct_host (map rpat (routes_of_node root)) host path).
+Proof.
+  intros Hroot Hr Hne Hns Hpo Hside Hf. unfold spec_direct_host.
+  rewrite (spec_eq_m2h root host path Hroot Hr Hne Hns Hpo Hside).
+  pose proof (lbd_eq_m2h host path root lazy fuel Hns Hroot Hne Hf) as H.
+  destruct (m2h_root path root host) as [[l vals]|] eqn:Em.
+  - destruct H as (l' & tps' & -> & Hrt).
+    destruct (m2h_root_sound host path root l vals Hns Hroot Em) as (rt & ht & bt & hvals & x & kvp & G1 & _).
+    simpl. unfold lpat. rewrite Hrt, G1. reflexivity.
+  - destruct H as (a & b & c & d & -> & Hi). simpl.
+    destruct a as [n|]; auto. destruct b; auto. specialize (Hi eq_refl). discriminate.
+Qed.
+
+(* ------------------------------------------------------------------ *)
+(* the path-only fallback below the method root                          *)
+(* ------------------------------------------------------------------ *)
+(* StaticEquiv2.lbp_eq_m2 with an arbitrary initial tsr-parameter buffer (the fallback passes the
+   buffer of the hostname pass on) *)
+Theorem lbp_eq_m2_tps pre t path lazy fuel tps0 : pwf pre t -> m2_fuel path t <= fuel ->
+  match m2 t path with
+  | Some (l, vals) => found_as (lookup_by_path fuel t path lazy [] tps0) l (addp lazy [] vals)
+  | None => nodirect2 (lookup_by_path fuel t path lazy [] tps0)
+  end.
+Proof.
+  intros Hwf Hf. unfold lookup_by_path, m2_fuel in *.
+  destruct path as [|c path].
+  - destruct t as [k r ch]. pose proof (pwf_inv _ _ _ _ Hwf) as (kt & Hne & Hk & Hok & _).
+    rewrite (m2_nil_path k r ch kt Hk Hne (kt_ok_tok _ _ Hok)).
+    destruct fuel as [|[|[|f]]]; try lia.
+    rewrite walk_ge by (simpl; lia).
+    set (s := init_st (Node k r ch) [] tps0).
+    destruct (after_fail (S f) [] lazy s) as (s' & -> & Hc & Ht' & _).
+    + apply cmn_lt_nofound. change (cmn s) with 0. change (nkey (cur s)) with k. rewrite Hk.
+      destruct kt as [|t kt]; [congruence|]. rewrite render_cons_len. pose proof (render_tok_len_pos t). lia.
+    + unfold tinv; simpl; auto.
+    + destruct Hc as (_ & _ & _ & _ & Hs & _). rewrite back_nil by (rewrite Hs; reflexivity).
+      do 4 eexists. split; [reflexivity|exact Ht'].
+  - pose proof (walk_m2 (List.length (c :: path)) t pre Hwf lazy (c :: path) fuel (init_st t [] tps0) (Nat.le_refl _) eq_refl) as H.
+    simpl cm in H. simpl skipn in H.
+    specialize (H ltac:(simpl; lia) eq_refl eq_refl ltac:(unfold tinv; simpl; auto) ltac:(lia)).
+    destruct (m2 t (c :: path)) as [[l vals]|]; [exact H|].
+    destruct H as (f' & s' & -> & Hf' & Hs & _ & Ht' & _). simpl in Hs.
+    destruct f' as [|f']; [lia|]. rewrite back_nil by exact Hs.
+    do 4 eexists. split; [reflexivity|exact Ht'].
+Qed.
+
+Theorem lbp_param_eq_spec_tps t host path fuel tps0 :
+  pwf [] t -> starts_with "/" (nkey t) = true -> m2_fuel path t <= fuel ->
+  okpath path = true \/ plain t = true ->
+  direct_obs (lookup_by_path fuel t path false [] tps0) = spec_direct (map rpat (routes_of_node t)) host path.
+Proof.
+  intros Hwf Hsl Hf Hs. unfold spec_direct. rewrite (spec_eq_m2 t host path Hwf Hsl Hs).
+  pose proof (lbp_eq_m2_tps [] t path false fuel tps0 Hwf Hf) as H.
+  destruct (m2 t path) as [[l kvs]|] eqn:Em.
+  - destruct H as (l' & tps' & -> & Hrt). destruct (m2_sound _ _ _ _ _ Hwf Em) as (rt & bt & H1 & H2 & H3 & H4 & H5).
+    simpl. unfold lpat. rewrite Hrt, H1. f_equal. f_equal.
+    unfold name_values. simpl in H3. rewrite H3, tokenize_render by exact H4. rewrite <- H5. symmetry. apply combine_fst_snd.
+  - destruct H as (a & b & c & d & -> & Hi). simpl.
+    destruct a as [n|]; auto. destruct b; auto. specialize (Hi eq_refl). discriminate.
+Qed.
+
+Lemma filter_slash_first ch : NoDup (heads ch) ->
+  filter (fun c => starts_with "/" (nkey c)) ch = match first_child "/" ch with Some c => [c] | None => [] end.
+Proof.
+  induction ch as [|x ch IH]; intros Hnd; simpl; auto.
+  inversion Hnd as [|? ? Hni Hnd']; subst.
+  destruct (starts_with "/" (nkey x)) eqn:E.
+  - f_equal. apply filter_none. intros y Hy. destruct (starts_with "/" (nkey y)) eqn:Ey; auto.
+    exfalso. apply Hni. apply starts_with_hd in E, Ey. rewrite E, <- Ey.
+    exact (in_map (fun c0 => hd_byte (nkey c0)) ch y Hy).
+  - apply IH; auto.
+Qed.
+
+Lemma path_patterns_root root : NoDup (heads (nchildren root)) -> Forall (pwf []) (nchildren root) -> nroute root = None ->
+  filter is_path_pattern (map rpat (routes_s root)) =
+  match first_child "/" (nchildren root) with Some c => map rpat (routes_s c) | None => [] end.
+Proof.
+  intros Hnd Hpw Hr. destruct root as [k r ch]. cbn [nroute nchildren] in *. subst r. rewrite Forall_forall in Hpw.
+  cbn [routes_s]. simpl opt_list. simpl app.
+  rewrite (map_flat_map rpat routes_s ch).
+  rewrite (filter_flat_map is_path_pattern (fun c => starts_with "/" (nkey c))).
+  - rewrite (filter_slash_first ch Hnd). destruct (first_child "/" ch); simpl; [apply app_nil_r|reflexivity].
+  - intros x Hx. destruct (starts_with "/" (nkey x)) eqn:E.
+    + apply filter_all. intros p Hp. apply in_map_iff in Hp. destruct Hp as (rt & <- & Hrt).
+      rewrite (pwf_pattern_kind x (Hpw x Hx) rt Hrt), E. reflexivity.
+    + apply filter_none. intros p Hp. apply in_map_iff in Hp. destruct Hp as (rt & <- & Hrt).
+      rewrite (pwf_pattern_kind x (Hpw x Hx) rt Hrt), E. reflexivity.
+Qed.
+
+Lemma select_in_path_filter pats host path :
+  select_in pats host path false = select_in (filter is_path_pattern pats) host path false.
+Proof.
+  unfold select_in. f_equal. f_equal. induction pats as [|p pats IH]; simpl; auto.
+  destruct (is_path_pattern p) eqn:E; simpl; rewrite ?E; rewrite IH; reflexivity.
+Qed.
+
+Definition root_fuel (path : bytes) (root : node) : nat :=
+  hroot_fuel path root + pcost_sum (List.length path) (nchildren root) + 8.
+
+Lemma fallback_eq_spec fuel root host path p tp :
+  hroot_ok root -> nroute root = None -> root_side path root -> root_fuel path root <= fuel ->
+  direct_obs (path_fallback fuel root path false p tp) = spec_direct (map rpat (routes_of_node root)) host path.
+Proof.
+  intros (Hnd & Hpw & Hsplit) Hr Hside Hf. unfold path_fallback, spec_direct. rewrite get_edge_first.
+  rewrite select_in_path_filter, routes_of_node_s, (path_patterns_root root Hnd Hpw Hr).
+  rewrite Forall_forall in Hpw.
+  destruct (first_child "/" (nchildren root)) as [c|] eqn:Ec.
+  - apply first_child_in in Ec. destruct Ec as [Hin Hsl].
+    rewrite <- routes_of_node_s.
+    assert (Hfc : m2_fuel path c <= fuel).
+    { unfold m2_fuel. unfold root_fuel in Hf. pose proof (pcost_in (List.length path) c _ Hin). lia. }
+    assert (Hsd : okpath path = true \/ plain c = true) by (destruct Hside as [H|H]; [left; exact H|right; apply H; exact Hin]).
+    pose proof (lbp_param_eq_spec_tps c host path fuel tp (Hpw c Hin) Hsl Hfc Hsd) as H.
+    unfold spec_direct in H. exact H.
+  - simpl. unfold select_in. simpl. rewrite select_nil. reflexivity.
+Qed.
+
+(* ------------------------------------------------------------------ *)
+(* roots_lookup = spec_lookup (direct outcome) for a method with hostname routes *)
+(* ------------------------------------------------------------------ *)
+Lemma select_nohost pats host path : filter (fun p => negb (is_path_pattern p)) pats = [] ->
+  select_in pats host path true = None.
+Proof.
+  intros H. unfold select_in. rewrite H. simpl. destruct host; [reflexivity|]. apply select_nil.
+Qed.
+
+Lemma filter_filter_nil {A} (P Q : A -> bool) l : filter P l = [] -> filter P (filter Q l) = [].
+Proof.
+  induction l as [|x l IH]; simpl; auto. destruct (P x) eqn:E; [discriminate|]. intros H.
+  destruct (Q x); simpl; rewrite ?E; auto.
+Qed.
+
+Lemma select_tsr_nohost pats host path : filter (fun p => negb (is_path_pattern p)) pats = [] ->
+  select_tsr_in pats host path true = None.
+Proof.
+  intros H. unfold select_tsr_in. destruct path as [|a [|b path]]; auto.
+  destruct (ends_with_slash (a :: b :: path)).
+  - apply select_nohost; exact H.
+  - apply select_nohost. apply filter_filter_nil. exact H.
+Qed.
+
+(* the missing piece for the full equality: M1 and S agree on WHETHER the hostname pass yields a
+   trailing-slash recommendation (that is C08 for hostname trees; not proved here) *)
+Definition host_tsr_agree (fuel : nat) (root : node) (host path : bytes) : Prop :=
+  forall tn' t p tp, lookup_by_domain fuel root host path false [] [] = Found tn' t p tp ->
+    (tn' = None <-> select_tsr_in (map rpat (routes_of_node root)) host path true = None).
+
+Lemma spec_lookup_direct_cases pats host path :
+  sres_direct (spec_lookup pats host path) =
+  match host with
+  | [] => spec_direct pats host path
+  | _ => match select_in pats host path true with
+         | Some (p, vals) => Some (p, name_values p vals)
+         | None => match select_tsr_in pats host path true with
+                   | Some _ => None
+                   | None => spec_direct pats host path
+                   end
+         end
+  end.
+Proof.
+  unfold spec_lookup, spec_direct.
+  assert (Hpo : sres_direct (match select_in pats host path false with
+                             | Some x => mk_res false x
+                             | None => match select_tsr_in pats host path false with
+                                       | Some x => mk_res true x | None => SNone end
+                             end) =
+                match select_in pats host path false with Some (p, vals) => Some (p, name_values p vals) | None => None end).
+  { destruct (select_in pats host path false) as [[p vals]|]; [reflexivity|].
+    destruct (select_tsr_in pats host path false) as [[p vals]|]; reflexivity. }
+  destruct host as [|h0 host'].
+  - cbn [Spec.is_nil negb andb]. rewrite andb_false_r. exact Hpo.
+  - cbn [Spec.is_nil negb]. rewrite andb_true_r.
+    destruct (Spec.is_nil (filter (fun p => negb (is_path_pattern p)) pats)) eqn:En.
+    + assert (filter (fun p => negb (is_path_pattern p)) pats = []) as Hnil
+        by (destruct (filter (fun p => negb (is_path_pattern p)) pats); [reflexivity|discriminate]).
+      rewrite (select_nohost pats (h0 :: host') path Hnil), (select_tsr_nohost pats (h0 :: host') path Hnil).
+      cbn [negb]. exact Hpo.
+    + cbn [negb].
+      destruct (select_in pats (h0 :: host') path true) as [[p vals]|]; [reflexivity|].
+      destruct (select_tsr_in pats (h0 :: host') path true) as [[p vals]|]; [reflexivity|]. exact Hpo.
+Qed.
+
+Theorem roots_lookup_host_eq_spec r m i root host path fuel :
+  method_index r m = Some i -> nth_error r i = Some root -> nroute root = None ->
+  hroot_ok root -> nchildren root <> [] -> shortcut root = false ->
+  nohslash host -> pathok path = true -> root_side path root -> root_fuel path root <= fuel ->
+  (host <> [] -> select_in (map rpat (routes_of_node root)) host path true = None ->
+   host_tsr_agree fuel root host path) ->
+  direct_obs (roots_lookup fuel r m host path false [] []) =
+  sres_direct (spec_lookup (method_patterns r m) host path).
+Proof.
+  intros Hm Hn Hr Hroot Hne Hsc Hns Hpo Hside Hf Htsr.
+  assert (Hpats : method_patterns r m = map rpat (routes_of_node root)) by (unfold method_patterns; rewrite Hm, Hn; reflexivity).
+  rewrite Hpats, spec_lookup_direct_cases.
+  assert (Hhf : hroot_fuel path root <= fuel) by (unfold root_fuel in Hf; lia).
+  destruct host as [|h0 host'].
+  - rewrite (roots_lookup_nohost fuel r m i root path false [] [] Hm Hn Hne Hsc).
+    apply fallback_eq_spec; auto.
+  - set (host := h0 :: host') in *.
+    assert (Hhne : host <> []) by discriminate.
+    rewrite (roots_lookup_hostpass fuel r m i root host path false [] [] Hm Hn Hne Hsc Hhne).
+    pose proof (lbd_eq_spec root host path fuel Hroot Hr Hhne Hns Hpo Hside Hhf) as Hd.
+    unfold spec_direct_host in Hd.
+    pose proof (lbd_eq_m2h host path root false fuel Hns Hroot Hhne Hhf) as Hshape.
+    destruct (select_in (map rpat (routes_of_node root)) host path true) as [[p vals]|] eqn:Esel.
+    + (* the hostname pass matches directly *)
+      destruct (lookup_by_domain fuel root host path false [] []) as [[n|] t pp tp| |]; simpl in Hd; try discriminate.
+      destruct t; [discriminate|]. exact Hd.
+    + specialize (Htsr Hhne eq_refl).
+      destruct (m2h_root path root host) as [[l vs]|] eqn:Em.
+      * exfalso. destruct Hshape as (l' & tps' & E & Hrt).
+        destruct (m2h_root_sound host path root l vs Hns Hroot Em) as (rt & ht & bt & hvals & x & kvp & G1 & _).
+        rewrite E in Hd. simpl in Hd. rewrite Hrt, G1 in Hd. discriminate.
+      * destruct Hshape as (tn' & t & pp & tp & E & Hi). rewrite E.
+        destruct (Htsr tn' t pp tp E) as [Ha Hb].
+        destruct tn' as [n|].
+        -- destruct t; [|specialize (Hi eq_refl); discriminate].
+           destruct (select_tsr_in (map rpat (routes_of_node root)) host path true) as [x|]; [reflexivity|].
+           specialize (Hb eq_refl). discriminate.
+        -- rewrite (Ha eq_refl). apply fallback_eq_spec; auto.
+Qed.
